@@ -466,9 +466,15 @@ impl<T: Sync + Send + 'static> Nucleo<T> {
                 // a tick that failed to get the lock and then armed the flag is not missed
                 drop(inner);
                 atomic::fence(Ordering::SeqCst);
+                #[cfg(nucleo_verif)]
+                verif::yield_point("run.unlocked", completed as u64);
                 if completed && should_notify.load(Ordering::SeqCst) {
+                    #[cfg(nucleo_verif)]
+                    verif::yield_point("run.before_notify", 0);
                     notify()
                 }
+                #[cfg(nucleo_verif)]
+                verif::yield_point("run.done", 0);
             })
         }
         Status { changed, running }
